@@ -191,6 +191,28 @@ func unit(ki, mode int) harness.Unit {
 				c.Violate(fmt.Sprintf("setiv-accepts:%d", n), fmt.Sprintf("SetIV accepted %d bytes", n), nil, nil)
 			}
 		}
+		// a refused SetIV leaves the IV in effect as it was: accepted IV A, then every refused length
+		// with non-zero content, then the mode must still run under A
+		ivA := pu.Msg(61, 16)
+		if err := sm4.SetIV(append([]byte{}, ivA...)); err != nil {
+			c.Violate("setiv-error", fmt.Sprintf("SetIV(16 bytes) failed: %v", err), nil, nil)
+		}
+		for _, n := range []int{1, 8, 15, 17, 32} {
+			bad := pu.Msg(62+n, n)
+			for i := range bad {
+				bad[i] |= 0x80
+			}
+			sm4.SetIV(bad)
+			pt := pu.Msg(63, 37)
+			got, err := call(mode, keys[0], pt, true)
+			want := refEnc(mode, keys[0], ivA, pt)
+			c.Add("evaluations", 1)
+			if err != nil || !bytes.Equal(got, want) {
+				c.Violate(fmt.Sprintf("iv-changed-by-refused-setiv:%s", modeNames[mode]), fmt.Sprintf("after SetIV(A) and a refused SetIV of %d bytes, %s does not encrypt under A: got %s want %s (%v)", n, modeNames[mode], pu.Hex(got), pu.Hex(want), err), nil, nil)
+				break
+			}
+		}
+		sm4.SetIV(make([]byte, 16))
 		for _, n := range []int{0, 15, 17, 24, 32} {
 			if _, err := call(mode, make([]byte, n), []byte("x"), true); err == nil {
 				c.Violate(fmt.Sprintf("helper-accepts-keylen:%d", n), fmt.Sprintf("%s helper accepted a %d-byte key", modeNames[mode], n), nil, nil)
